@@ -255,7 +255,7 @@ def read_case_file(path):
 class ConnProp:
     """subclasses set: id, lean_module, oracles (list of functions Obs -> fails), profile (kwargs of random_case),
     texts"""
-    gen_engines = ["Conn"]
+    gen_engines = ["Conn", "ConnSkel"]
     drivers = ["conn"]
     corpus_dirs = ["conn"]
     profile = {}
